@@ -145,7 +145,25 @@ def families():
         "ohv": ("OptimalHaploidValueSelection", "OptimalHaploidValue", lambda T, r: dict(ntrait=T, nhaploblk=2, unique_parents=r.random() < 0.6), None, True),
         "uc": ("UsefulnessCriterionSelection", "UsefulnessCriterion",
                lambda T, r: dict(ntrait=T, nself=r.choice([0, 1]), upper_percentile=0.1, vmatfcty=VF(), gmapfn=HaldaneMapFunction(), unique_parents=True), None, True),
+        "family": ("FamilyEstimatedBreedingValueSelection", "FamilyEstimatedBreedingValue", lambda T, r: dict(ntrait=T), None, False),
+        "ocs": ("OptimalContributionSelection", "OptimalContribution", lambda T, r: dict(ntrait=T, cmatfcty=MC(), unscale=r.random() < 0.5), None, False),
+        "embv": ("ExpectedMaximumBreedingValueSelection", "ExpectedMaximumBreedingValue",
+                 lambda T, r: dict(ntrait=T, nrep=2, mateprot=_dh(r), unique_parents=r.random() < 0.6), None, True),
+        # subset-only families
+        "opv": ("OptimalPopulationValueSelection", "OptimalPopulationValue", lambda T, r: dict(ntrait=T, nhaploblk=2), None, False),
+        "gbuild": ("GenotypeBuilderSelection", "GenotypeBuilder", lambda T, r: dict(ntrait=T, nhaploblk=2, nbestfndr=1), None, False),
+        "pafd": ("PopulationAlleleFrequencyDistanceSelection", "PopulationAlleleFrequencyDistance", "LT", None, False),
+        "pau": ("PopulationAlleleUnavailabilitySelection", "PopulationAlleleUnavailability", "LT", None, False),
+        "mogs": ("MultiObjectiveGenomicSelection", "MultiObjectiveGenomic", "LT", None, False),
     }
+
+
+SUBSET_ONLY = ("opv", "gbuild", "pafd", "pau", "mogs")
+
+
+def _dh(r):
+    from pybrops.breed.prot.mate.TwoWayDHCross import TwoWayDHCross
+    return TwoWayDHCross(rng=np.random.default_rng(r.randrange(2 ** 31)))
 
 
 SO = {"Subset": ["SortingSubsetOptimizationAlgorithm", "SteepestDescentSubsetHillClimber", "SubsetGeneticAlgorithm"],
@@ -166,11 +184,9 @@ def select_once(fam, spec, enc, pop, nc, npar, T, algname, rng, kw, obj_wt, mo_b
     mod, stem, kwf, src, mate = spec
     cls = getattr(importlib.import_module(SEL + mod), stem + enc + "Selection")
     nmating = rng.choice([1, 2]); nprogeny = rng.choice([1, 3])
-    trans = None; tkw = None
     nobj = 1
-    if T > 1 or fam in ("l2",):
-        from pybrops.breed.prot.sel.prob.trans import trans_sum
-        trans = trans_sum; tkw = {}
+    from pybrops.breed.prot.sel.prob.trans import trans_sum
+    trans = trans_sum; tkw = {}          # the latent vector (traits, families, ...) is reduced to one objective
     pr = cls(ncross=nc, nparent=npar, nmating=nmating, nprogeny=nprogeny, nobj=nobj, obj_wt=obj_wt, obj_trans=trans, obj_trans_kwargs=tkw,
              soalgo=make_soalgo(algname, rng), rng=gen(rng), **kw)
     mo = {}
@@ -291,7 +307,7 @@ def run(ctx):
     for rep in range(nsel):
         for fam, spec in fams.items():
             mod, stem, kwf, src, mate = spec
-            for enc in ("Subset", "Integer", "Binary", "Real"):
+            for enc in (("Subset",) if fam in SUBSET_ONLY else ("Subset", "Integer", "Binary", "Real")):
                 algs = SO[enc] if (enc != "Subset" or src) else SO[enc][:2]
                 for algname in (algs if rep == 0 or enc != "Subset" else [algs[rep % len(algs)]]):
                     T = rng.choice([1, 1, 2])
@@ -301,7 +317,8 @@ def run(ctx):
                     if enc == "Subset" and not mate and nc * npar > n:
                         nc = max(1, n // npar)
                     pop = population(rng, n, L, T)
-                    kw = kwf(T, rng)
+                    kw = dict(ntrait=T, weight=np.ones((L, T)), target=np.array([[rng.choice([0.0, 0.5, 1.0]) for _ in range(T)] for _ in range(L)])) \
+                        if kwf == "LT" else kwf(T, rng)
                     sense = rng.choice([1.0, 1.0, -1.0])
                     seed = rng.randrange(2 ** 31)
                     site = "%s%sSelection.select" % (stem, enc)
@@ -357,8 +374,8 @@ def run(ctx):
                             with time_limit(180), np.errstate(all="ignore"):
                                 np.random.seed(seed + 1); prng.seed(seed + 1)
                                 cls = type(pr)
-                                pr2 = cls(ncross=nc, nparent=npar, nmating=nm, nprogeny=npg, nobj=1, obj_wt=sense, obj_trans=pr.obj_trans if T > 1 else None,
-                                          obj_trans_kwargs={} if T > 1 else None, soalgo=make_soalgo(algname, rng), rng=gen(rng), **kw)
+                                pr2 = cls(ncross=nc, nparent=npar, nmating=nm, nprogeny=npg, nobj=1, obj_wt=sense, obj_trans=pr.obj_trans,
+                                          obj_trans_kwargs={}, soalgo=make_soalgo(algname, rng), rng=gen(rng), **kw)
                                 cfg2 = pr2.select(pgmat=tw["pg"], gmat=tw["pg"], ptdf=None, bvmat=tw["bv"], gpmod=tw["gm"], t_cur=0, t_max=5, miscout=None)
                             c["hastwin"] = True
                             c["twin"] = sorted(int(perm[int(x)]) for x in np.asarray(cfg2.xconfig_decn))
